@@ -141,10 +141,10 @@ int main(int argc, char** argv)
         o.cluster_count = 4;
         o.classes = {"N", "N3", "C", "P", "R", "RB", "RS", "SB", "PR"};
         o.guarded = true;
-        o.fees = "h";
+        o.fees = "mh"; o.fees3 = "h";
         o.child_fees = "h";
         o.thr = "acde";
-        o.thr_rb = "cd"; o.thr_sb = "cd"; o.thr_pr = "dh";
+        o.thr_rb = "cd"; o.thr_sb = "cd"; o.thr_pr = "cdh";
         o.max_idx = 2;
         o.prio_minus = true; o.prio_next = false;
         o.depth_quick = 3; o.depth_thorough = 4;
